@@ -764,12 +764,61 @@ def metamorphic(ctx: Ctx, exe, fx, cases, budget_fail=6):
                 check_lookup_misses(ctx, new, case)
                 if len(kinds) == 1 or kinds == SINGLE_KINDS:
                     doc_correspondence(ctx, exe, fx, new, f"{src}~{'+'.join(kinds)}", case, predict_from=orig if not fail else None)
+                if "order" in kinds and len(kinds) == 1 and not fail:
+                    edit_after_read(ctx, source_path(tmp, src), dst, case)
                 if "order" in kinds or "form" in kinds:
                     try:
                         store_correspondence(ctx, exe, dst, new, f"{src}~{'+'.join(kinds)}")
                     except Exception as e:  # noqa: BLE001
                         ctx.notes.append(f"store correspondence skipped for {case}: {type(e).__name__}: {e}")
             _rm(dst)
+
+
+def edit_after_read(ctx: Ctx, src_path, dst_path, case):
+    """The two files are the same document: the same edit made on both (a number format the table does not have yet, on
+    the first number cell) leaves every cell of that table displayed the same way in both."""
+    import warnings as _w
+    from numbers_parser import Document
+    try:
+        with _w.catch_warnings():
+            _w.simplefilter("ignore")
+            docs = [Document(str(src_path)), Document(str(dst_path))]
+            views = []
+            for d in docs:
+                done = None
+                for sh in d.sheets:
+                    for tb in sh.tables:
+                        if tb.num_rows * tb.num_cols > 3000:
+                            continue
+                        for row in tb.rows():
+                            for c in row:
+                                if type(c).__name__ == "NumberCell" and done is None:
+                                    tb.set_cell_formatting(c.row, c.col, "number", decimal_places=7, show_thousands_separator=True)
+                                    done = (sh.name, tb.name)
+                        if done:
+                            break
+                    if done:
+                        break
+                if done is None:
+                    return
+                tb = d.sheets[done[0]].tables[done[1]]
+                view = {}
+                for row in tb.rows():
+                    for c in row:
+                        try:
+                            view[(c.row, c.col)] = c.formatted_value
+                        except Exception as e:  # noqa: BLE001
+                            view[(c.row, c.col)] = "!" + type(e).__name__
+                views.append((done, view))
+    except Exception as e:  # noqa: BLE001
+        ctx.notes.append(f"edit_after_read skipped for {case}: {type(e).__name__}: {e}"[:200])
+        return
+    ctx.count("oracle-edit-after-read")
+    (w0, v0), (w1, v1) = views
+    if w0 != w1 or v0 != v1:
+        bad = next((k for k in v0 if v1.get(k) != v0[k]), None)
+        ctx.oracle_fail("layout-dependent:edit-after-read", case,
+                        f"after the same set_cell_formatting call on both files, table {w0} cell {bad} shows {v0.get(bad)!r} in the original and {v1.get(bad)!r} in the rewritten file")
 
 
 def run(ctx: Ctx) -> int:
